@@ -1333,6 +1333,39 @@ def family_models(ctx):
         m.ir_version = 9
         fd = [{"x": f32(2, 3, lo=-3, hi=3), "cond": np.array(c)} for c in (True, False)]
         out.append((f"rewrites_only_in_nested_{where}", m.SerializeToString(), fd, ["rewrite", "rewrite_pass_ir", "rewrite_two_node", "optimize"], True))
+    # ---- models with symbolic dims, judged at several concrete bindings (feeds of different shapes):
+    #      ScatterND over a Range built from Shape<start=s>(data) - a full overwrite only when s = 0 and the symbols agree
+    for start in (0, 1):
+        nodes = [h.make_node("Shape", ["data"], ["shape"], start=start), h.make_node("Constant", [], ["axis"], value_int=0),
+                 h.make_node("Gather", ["shape", "axis"], ["n"], axis=0), h.make_node("Constant", [], ["zero"], value_int=0),
+                 h.make_node("Constant", [], ["one"], value_int=1), h.make_node("Range", ["zero", "n", "one"], ["rng"]),
+                 h.make_node("Constant", [], ["minus1"], value_ints=[-1]), h.make_node("Unsqueeze", ["rng", "minus1"], ["idx"]),
+                 h.make_node("ScatterND", ["t", "idx", "updates"], ["out"], reduction="none"), h.make_node("Mul", ["out", "two"], ["z"])]
+        first = "A" if start == 0 else "B"
+        g = h.make_graph(nodes, "scat", [h.make_tensor_value_info("data", T.FLOAT, ["A", "B"]), h.make_tensor_value_info("t", T.FLOAT, ["A", 4]),
+                                         h.make_tensor_value_info("updates", T.FLOAT, [first, 4])],
+                         [h.make_tensor_value_info("z", T.FLOAT, ["A", 4])], [nh.from_array(np.array(2.0, np.float32), "two")])
+        m = h.make_model(g, opset_imports=[h.make_opsetid("", 18)])
+        m.ir_version = 8
+        fd = []
+        for a_, b_ in ((3, 3), (3, 2), (2, 2), (7, 1), (1, 1)):
+            k_ = a_ if start == 0 else b_
+            fd.append({"data": f32(a_, b_), "t": f32(a_, 4), "updates": f32(k_, 4)})
+        out.append((f"sym_scatter_range_of_shape_start{start}", m.SerializeToString(), fd, ["optimize", "rewrite", "optimize_ir_i1_noinf"], True))
+    #      Reshape with a run-time target whose output is ANNOTATED with a static 0 dim (MaterializeReshapeShape)
+    for az in (None, 1):
+        kw = {} if az is None else {"allowzero": az}
+        nodes = [h.make_node("Reshape", ["x", "target"], ["y"], **kw), h.make_node("ReduceSum", ["y", "axes0"], ["ysum"], keepdims=1),
+                 h.make_node("Add", ["ysum", "w"], ["z"])]
+        g = h.make_graph(nodes, "rz", [h.make_tensor_value_info("x", T.FLOAT, ["N", 0, 4]), h.make_tensor_value_info("target", T.INT64, [2]),
+                                       h.make_tensor_value_info("w", T.FLOAT, ["M", 12])],
+                         [h.make_tensor_value_info("z", T.FLOAT, ["M", 12])], [nh.from_array(np.array([0], np.int64), "axes0")],
+                         value_info=[h.make_tensor_value_info("y", T.FLOAT, [0, 12])])
+        m = h.make_model(g, opset_imports=[h.make_opsetid("", 18)])
+        m.ir_version = 8
+        tgt = np.array([-1, 12], np.int64) if az is None else np.array([0, 12], np.int64)
+        fd = [{"x": np.zeros((n_, 0, 4), np.float32), "target": tgt, "w": f32(m_, 12)} for n_, m_ in ((0, 1), (2, 1), (3, 2), (7, 2))]
+        out.append((f"sym_reshape_runtime_target_annotated_zero_az{az}", m.SerializeToString(), fd, ["optimize", "rewrite", "optimize_ir_i1_noinf"], True))
     rng.shuffle(out)
     return out
 
